@@ -8,6 +8,7 @@ import (
 	"verif/internal/c02"
 	"verif/internal/c03"
 	"verif/internal/c04"
+	"verif/internal/c05"
 	"verif/internal/c06"
 	"verif/internal/c07"
 	"verif/internal/c08"
@@ -28,6 +29,7 @@ func init() {
 	monitors["C02"] = c02.Run
 	monitors["C03"] = c03.Run
 	monitors["C04"] = c04.Run
+	monitors["C05"] = c05.Run
 	monitors["C06"] = c06.Run
 	monitors["C07"] = c07.Run
 	monitors["C08"] = c08.Run
